@@ -251,7 +251,18 @@ def run(c):
                 if not p["key"].startswith("Conf:"):
                     c.violation(p["key"], "[%s build] %s [%s string #%d, %d bytes, seed %d]" % (prof, p["what"], e.get("src"), e["i"], e["d"]["len"], c.seed),
                                 {"seed": c.seed, "index": e["i"], "profile": prof, "bytes": e.get("bytes"), "env": env})
-        c.cov["distinct_nontrivial"] += sum(1 for e in events if e.get("src") in ("mutated", "random"))
+        c.cov["distinct_nontrivial"] += sum(1 for e in events if e.get("src") in ("mutated", "shaped", "random"))
+    # binding self-check (DESIGN.md S6): synthetic observations, independent of the code under test:
+    # faithful -> silent; size beyond the input -> UNSAFE; wrong extent -> NONCONF
+    d0 = {"len": 44, "ver": 0, "hl": 9, "pl": 8, "pt": 0, "dn": 0, "sn": 0, "s0": 0, "s1": 0, "s2": 0, "ul": 8, "st": 128}
+    ok36, ok44 = {"ok": True, "size": 36}, {"ok": True, "size": 44}
+    good = {"ev": "obs", "src": "synthetic", "i": -1, "d": d0, "obs": {"hdr": ok36, "raw": ok44, "udp": ok44, "scmp": ok44, "payload": 8, "hdrsize": 36, "udpd": 8, "scmpm": 8}}
+    unsafe = dict(good, obs=dict(good["obs"], raw={"ok": True, "size": 45}))
+    nonconf = dict(good, obs=dict(good["obs"], udpd=7))
+    n0 = len(combined)
+    combined += [good, unsafe, nonconf]
+    origin += [("synthetic", good), ("synthetic", unsafe), ("synthetic", nonconf)]
+    synth_lines = (n0 + 1, n0 + 2, n0 + 3)
     trace_in = os.path.join(c.work, "trace.ndjson")
     write_ndjson(trace_in, combined)
     rt = c.tlc(SD, "Trace_WireLayout", mode="trace", env={"TRACE": trace_in}, timeout=6000)
@@ -260,12 +271,23 @@ def run(c):
     if rt.postcondition_failed or not rt.ok or not tot:
         c.fail_tool("Trace_WireLayout did not process the whole event file (see %s)" % rt.out_path)
     nev, nacc, ndrift, nbad = map(int, tot[-1])
+    unsafe_lines = {int(x) for x in re.findall(r'<<"UNSAFE", (\d+)>>', txt)}
+    nonconf_lines = {int(x) for x in re.findall(r'<<"NONCONF", (\d+),', txt)}
+    if (synth_lines[0] in unsafe_lines | nonconf_lines or synth_lines[1] not in unsafe_lines or synth_lines[2] not in nonconf_lines
+            or synth_lines[2] in unsafe_lines):
+        c.fail_tool("binding self-check failed: Trace_WireLayout judged the synthetic observations unsafe=%s nonconf=%s" % (
+            sorted(unsafe_lines & set(synth_lines)), sorted(nonconf_lines & set(synth_lines))))
+    nev, nacc, ndrift, nbad = nev - 3, nacc - 3, ndrift - 2, nbad - 1
     for mm in re.finditer(r'<<"UNSAFE", (\d+)>>', txt):
+        if int(mm.group(1)) in synth_lines:
+            continue
         prof, e = origin[int(mm.group(1)) - 1]
         c.violation("Trace:extent-outside-input", "[%s build] a view reports more bytes than its input / a sub-extent leaves its parent: descriptor %s observed %s" % (
             prof, json.dumps(e["d"]), json.dumps(e["obs"])), {"event": e, "profile": prof})
     first = True
     for mm in re.finditer(r'<<"NONCONF", (\d+), "(.*)">>', txt):
+        if int(mm.group(1)) in synth_lines:
+            continue
         prof, e = origin[int(mm.group(1)) - 1]
         if first:
             c.drift("[%s] recorded string #%d: descriptor %s real %s spec %s" % (prof, e["i"], json.dumps(e["d"]), json.dumps(e["obs"]), mm.group(2).replace('\\"', '"')[:400]))
